@@ -2,6 +2,7 @@ package c06
 
 import (
 	"fmt"
+	"math"
 	"sort"
 	"strings"
 
@@ -136,6 +137,22 @@ func profiles() []profile {
 		e = []starlark.Value{I(65), I(66), I(67)}
 		e[k] = I(300)
 		ps = append(ps, profile{fmt.Sprintf("byteints-range@%d", k), e})
+		// elements no encoder, comparison or conversion accepts, alone and inside a nested mutable list
+		// (a built-in that recurses into its argument, such as json.encode, must release every level)
+		e = []starlark.Value{I(3), I(1), I(2)}
+		e[k] = starlark.Universe["len"]
+		ps = append(ps, profile{fmt.Sprintf("ints-function@%d", k), e})
+		e = []starlark.Value{I(3), I(1), I(2)}
+		e[k] = starlark.Float(math.NaN())
+		ps = append(ps, profile{fmt.Sprintf("ints-nan@%d", k), e})
+		e = []starlark.Value{I(3), I(1), I(2)}
+		e[k] = starlark.NewList([]starlark.Value{I(1), starlark.NewList([]starlark.Value{starlark.Universe["len"]})})
+		ps = append(ps, profile{fmt.Sprintf("ints-nested-list-function@%d", k), e})
+		e = []starlark.Value{S("b"), S("a"), S("c")}
+		nd := starlark.NewDict(1)
+		nd.SetKey(I(1), I(2)) // a dict with a non-string key: not a JSON object
+		e[k] = starlark.NewList([]starlark.Value{nd})
+		ps = append(ps, profile{fmt.Sprintf("strings-nested-dict-intkey@%d", k), e})
 	}
 	return ps
 }
